@@ -29,6 +29,7 @@ type Env struct {
 	relyOld    *State // in rely conditions old() means the state before the interference step
 	localsSt   *State // state whose local variables names denote (old() keeps the current locals)
 	cur        *State // the current state when st has been switched to an earlier one (old, atlock)
+	loopHead   bool   // evaluating a loop invariant (variables declared in the body may not exist yet)
 }
 
 // heapVal: a slice or string header read from the heap by a contract satisfies its
@@ -142,7 +143,13 @@ func (x *Exec) lookupLocal(env *Env, name string) (Val, bool) {
 	}
 	if ordinal > 0 {
 		if ordinal <= len(cands) {
-			return pick(cands[ordinal-1])
+			if v, ok := pick(cands[ordinal-1]); ok {
+				return v, true
+			}
+			if env.loopHead && !cands[ordinal-1].Heap {
+				t := cands[ordinal-1].Type().(*types.Pointer).Elem()
+				return x.freshVal("undeclared."+want, t, lst), true
+			}
 		}
 		return Val{}, false
 	}
@@ -151,6 +158,12 @@ func (x *Exec) lookupLocal(env *Env, name string) (Val, bool) {
 		if v, ok := pick(cands[i]); ok {
 			return v, true
 		}
+	}
+	if env.loopHead && len(cands) == 1 && !cands[0].Heap {
+		// a loop invariant may name a variable that is declared inside the loop body: before the first
+		// iteration it has no value yet (any value: the clause must hold whatever it is)
+		t := cands[0].Type().(*types.Pointer).Elem()
+		return x.freshVal("undeclared."+want, t, lst), true
 	}
 	return Val{}, false
 }
